@@ -46,4 +46,16 @@ CHECKS = {
         "note": "Hash seeds vary per HashMap instance inside one process; binary-level repetition across processes and creation histories is exercised by the directory checks.",
         "technique": "TLA+ spec (Report.tla, MC_Report RenderCanon) + TLC + repeated real renderings + TLC trace validation",
     },
+    "C03": {
+        "text": "TLC checks the explicit-stack directory-walk machine (enter, skip, analyse file, descend, return-and-merge) against the declarative union over every small tree, listing order, name class and ordered pattern selection; every tree is created on tmpfs with the matching creation history, analysed by the real analyze_dir, and TV_DirWalk accepts the recorded run iff the returned map is exactly the union of the per-file results measured on the same build; random corpus trees in addition.",
+        "design_ref": "section 7 C03",
+        "note": "Listing order is observed, not assumed (tmpfs lists in reverse creation order; the evidence counts how many trees were listed as requested). Bounded tree shapes in the model; random trees up to depth 3 / 25 files.",
+        "technique": "TLA+ spec (DirWalk.tla) + TLC exhaustive enumeration + materialised trees through the real analyze_dir + TLC trace validation",
+    },
+    "C16": {
+        "text": "Same machine with the eligibility predicate: TLC checks Inert (result = result of the tree without ineligible files); trees mixing eligible files with hostile ineligible ones are analysed twice by the real analyze_dir (as is / physically pruned) and TV_DirWalk accepts iff both results equal the union over the eligible files; a panic is a violation.",
+        "design_ref": "section 7 C16",
+        "note": "Valid-Unicode names from a pool of 22 spellings; names containing '.t.sol' elsewhere than at the end are outside the statement and not generated.",
+        "technique": "TLA+ spec (DirWalk.tla Eligible/Inert) + TLC + materialised hostile trees through the real analyze_dir + TLC trace validation",
+    },
 }
